@@ -32,10 +32,11 @@ type c20World struct {
 	a        *agent.Agent
 	node     *recNode
 	sp       *scriptPool
-	running  bool // model: a loop is running
-	ended    bool // model: a loop ended and its result has not been collected by Wait yet
-	endErr   bool // model: that loop ended with an error
-	failNext bool // the next keep-alive fails
+	running  bool          // model: a loop is running
+	ended    bool          // model: a loop ended and its result has not been collected by Wait yet
+	endErr   bool          // model: that loop ended with an error
+	failNext bool          // the next keep-alive fails
+	interval time.Duration // the keep-alive interval the agent is configured with right now
 }
 
 // c20Latency is how long the scripted pool takes to answer a keep-alive in the worlds built next
@@ -45,7 +46,7 @@ var c20Latency time.Duration
 func c20New() *c20World {
 	node := &recNode{kind: ethnode.Geth, id: c18Ids[5]}
 	sp := &scriptPool{update: &pool.UpdateResponse{}, latency: c20Latency}
-	return &c20World{a: &agent.Agent{EthNode: node, UpdateInterval: c20Interval}, node: node, sp: sp}
+	return &c20World{a: &agent.Agent{EthNode: node, UpdateInterval: c20Interval}, node: node, sp: sp, interval: c20Interval}
 }
 
 func c20Settle() { vsched.Sleep(time.Millisecond) }
@@ -97,7 +98,7 @@ func (w *c20World) apply(ev string) (cls, detail string) {
 		if w.failNext && w.running {
 			w.sp.updateErr = errors.New("pool keep-alive failure (injected)")
 		}
-		vsched.Sleep(c20Interval)
+		vsched.Sleep(w.interval)
 		c20Settle()
 		w.sp.updateErr = nil
 		want := 0
@@ -137,6 +138,18 @@ func (w *c20World) apply(ev string) (cls, detail string) {
 		}
 	case "failkeepalive":
 		w.failNext = true
+	case "reconfigure":
+		// the operator changes the interval of a stopped agent (30 s -> 20 s -> 70 s -> 30 s; all longer than the slowest pool answers): the next run
+		// keeps the new cadence
+		switch w.interval {
+		case c20Interval:
+			w.interval = 20 * time.Second
+		case 20 * time.Second:
+			w.interval = 70 * time.Second
+		default:
+			w.interval = c20Interval
+		}
+		w.a.UpdateInterval = w.interval
 	}
 	want := 0
 	if w.running {
@@ -175,11 +188,14 @@ func (w *c20World) events() []string {
 	if w.ended {
 		evs = append(evs, "wait")
 	}
+	if !w.running {
+		evs = append(evs, "reconfigure")
+	}
 	return evs
 }
 
 func (w *c20World) key() string {
-	return fmt.Sprintf("%v %v %v %v", w.running, w.ended, w.endErr, w.failNext)
+	return fmt.Sprintf("%v %v %v %v %s", w.running, w.ended, w.endErr, w.failNext, w.interval)
 }
 
 // all histories up to depth; each history is one controlled execution (default schedule, virtual time)
